@@ -89,6 +89,9 @@ def expanded(repo=None):
 
 VERIF_FAIL_PATTERNS = [
     (r'postcondition not satisfied', 'ensures'),
+    (r'precondition not met: index in bounds', 'index'),
+    (r'index in bounds|index out of bounds', 'index'),
+    (r'precondition not met', 'requires@call'),
     (r'precondition not satisfied', 'requires@call'),
     (r'assertion failed', 'assert'),
     (r'invariant not satisfied at end of loop body', 'invariant(end)'),
